@@ -1,4 +1,6 @@
-HOOK_COMMITS = []
+HOOK_COMMITS = ['f1571dc', '04e6a20', 'ab40d75', '0b4062a']
+# properties whose check exists but whose theorems are still being proved: not claimed yet
+PENDING = {"C18"}
 NOT_YET = {}
 TEXT = {
     "C17": {
@@ -93,5 +95,44 @@ TEXT = {
                 "Tie as C01 plus steered schedules through the runWith/worker gates (late submission after close, retire/append window, Signal gap) for 1-3 workers; the judge requires "
                 "Shutdown and Serve to return, no callback after it, no panicking API call, the connection closed once.",
         "note": "Trusted: Lean kernel; the pool model (one action per critical section of the service mutex); the verif hooks and the trace recorder; sync.Mutex/Cond/WaitGroup/atomic as documented. A Wait that returns before its Signal was recorded is validated as a spurious wake-up (the model allows them; the theorems hold with them). Callbacks terminate. PARTIAL: real-time bounds, the Go runtime's WaitGroup reuse rule and callbacks that never return are outside the model; liveness is 'finitely many enabled steps remain'.",
+    },
+    "C11": {
+        "text": "Lean 4 theorems (Props/C11.lean) about the store operation model for every state, id and history: a successful Create/Update/Delete acts exactly as on a key-value map; "
+                "duplicate / empty id / not-found / wrong type / veto fail, leave the state unchanged and run no callback; exactly one callback per successful mutation with the value "
+                "immediately before and after; over any history the callbacks of an id form a chain; reads inside the transaction see its own writes. Tie: the same operation streams run "
+                "on real badgerstore (with and without prefix, typed) on a real BadgerDB and on mockstore, results and callbacks compared with the model (= the map specification).",
+        "note": "Trusted: Lean kernel; the transcription of badgerstore into Model/Index.lean / Model/StoreMap.lean; BadgerDB v1.6.2 (transactions atomic and durable, iterator Seek/ValidForPrefix semantics as modelled and exercised on a real database in a temp dir); taskqueue FIFO; encoding/json. Per-id mutual exclusion between goroutines is keylock / the mockstore mutex (trusted dependencies); the correspondence run is sequential per store.",
+    },
+    "C12": {
+        "text": "Lean 4 theorems (Props/C12.lean): a crash leaves exactly a committed prefix of the transactions (the one in flight all-or-nothing); Init is one transaction that seeds only missing "
+                "ids and sets the marker, later Inits are the identity (no duplication, no resurrection of deleted seeds, no half-seeding); RebuildIndexes makes every index exactly the image "
+                "of the stored values whatever garbage it held. Tie: Init / corrupt-the-index / RebuildIndexes / query sequences on a real BadgerDB compared with the model and the "
+                "sort-filter-window specification; a crash harness kills a child process at every instrumented point of a seeded workload and compares the reopened database with the model's "
+                "recovered state for that cut.",
+        "note": "Trusted: Lean kernel; the transcription of badgerstore into Model/Index.lean / Model/StoreMap.lean; BadgerDB v1.6.2 (transactions atomic and durable, iterator Seek/ValidForPrefix semantics as modelled and exercised on a real database in a temp dir); taskqueue FIFO; encoding/json. PARTIAL: BadgerDB's own atomicity/durability of one Update transaction (SyncWrites) and OS behaviour under power loss are trusted, not modelled.",
+    },
+    "C13": {
+        "text": "Lean 4 theorems (Props/C13.lean): the on-disk order of <key>\\0<id> is the lexicographic order of (key, id) for separator-free keys; FetchCollection over the sorted database keys "
+                "(BadgerDB forward/reverse Seek + ValidForPrefix semantics, the LastIndexByte split, the qplen guard, filter, offset, limit) equals sort-filter-reverse-drop-take of the index "
+                "entries for EVERY prefix, filter, offset, limit and direction; after every history of mutations the index entries are exactly the image of the values and the database stays "
+                "sorted; zero limit is empty. (The only extra hypothesis found necessary by the proof: fewer than 2^63 hits when the limit is negative.) Tie: random histories on a real "
+                "BadgerDB + QueryStore, queries over the parameter grid after Flush (an index task is delayed at its hook so that a premature Flush shows), compared with model and spec.",
+        "note": "Trusted: Lean kernel; the transcription of badgerstore into Model/Index.lean / Model/StoreMap.lean; BadgerDB v1.6.2 (transactions atomic and durable, iterator Seek/ValidForPrefix semantics as modelled and exercised on a real database in a temp dir); taskqueue FIFO; encoding/json. Known finding: keys containing the byte 0x00 are not ordered by (key,id) (on-disk format); reverse queries assume no key byte 0xFF directly after the prefix.",
+    },
+    "C14": {
+        "text": "Lean 4 theorems (Props/C14.lean): the query-change callbacks run exactly when the mutation changes the key in some index; if the mutation changes what a query returns (any "
+                "prefix, filter, window, direction) the change reports it affected; if neither the old nor the new key matches it reports it unaffected; same key never reported. "
+                "Tie: real QueryStore with watches; after each Flush the callbacks (ids in order, affected flags per watched query) are compared with the model and judged against "
+                "the values by the Lean specification.",
+        "note": "Trusted: Lean kernel; the transcription of badgerstore into Model/Index.lean / Model/StoreMap.lean; BadgerDB v1.6.2 (transactions atomic and durable, iterator Seek/ValidForPrefix semantics as modelled and exercised on a real database in a temp dir); taskqueue FIFO; encoding/json. The query handler layer (store.QueryHandler: reset vs query events) is exercised only through the model of affectsQuery; Events() returns no event list (as in the code).",
+    },
+    "C18": {
+        "text": "Lean 4 theorems (Props/C18.lean): Ref/SoftRef.MarshalJSON and MarshalDataValue assemble exactly {\"rid\":enc}, {\"rid\":enc,\"soft\":true}, {\"data\":enc} for every encoding of every "
+                "length (make/copy offsets as written); data-value wrap/unwrap is the identity on every JSON tree; store.Value classification as the protocol defines it; Equal is an "
+                "equivalence that implies equal meaning; a response is exactly one of result/resource/error and the service's envelopes are classified as what they are. Tie: real "
+                "json.Marshal of Ref/SoftRef on strings with quotes, control characters, non-ASCII; MarshalDataValue/UnmarshalDataValue/Value.UnmarshalJSON/Equal/ParseResponse on JSON texts "
+                "with surrounding whitespace and extra members, compared with the model (Lean JSON reader) and the protocol specification.",
+        "note": "Trusted: Lean kernel; encoding/json (text <-> tree, string escaping); the small JSON reader in Model/Json.lean (specification side). JSON member names are matched case-sensitively "
+                "in the model (encoding/json is case-insensitive; the generator uses exact case).",
     },
 }
